@@ -131,6 +131,8 @@ def shape_inputs(tier):
             ns = [5, 19, 25] + deep
         elif fam in ("subtype_chain", "subtype_cycle"):
             ns = [1, 2, 3, 40, 300] if quick else [1, 2, 3, 40, 300, 1000]      # exp2cxx is quadratic in the chain length
+        elif fam == "use_cycle":
+            ns = [1, 2, 3, 50] if quick else [1, 2, 3, 50, 2000]
         elif fam.startswith("deep_"):
             ns = [100, 20000] if quick else [100, 3000, 20000, 150000]
         elif fam.startswith("bound_"):
@@ -164,6 +166,8 @@ def shape_inputs(tier):
     for tag, data in G.alias_statements():
         out.append((tag, data, None, None))
     for tag, data in G.bound_kinds():
+        out.append((tag, data, None, None))
+    for tag, data in G.import_graphs():
         out.append((tag, data, None, None))
     for n in ([1, 5, 6, 7] if quick else [1, 2, 5, 6, 7, 8, 20, 100]):
         for nested in (False, True):
@@ -296,7 +300,7 @@ def make_key(tool, r, fam):
     return re.sub(r"\s+", "_", key)
 
 
-EXTRA_MARKS = [("errbuf", ("ERROR_nexterror", "ERROR_vprintf", "ERRORvreport_with_symbol", "errbuf")), ("longexpr", ("exp_output", "format_for_std_stringout")), ("selectsearch", ("EXP_resolve_op_dot_fuzzy", "EXP_resolve_op_group_fuzzy", "EXPresolve_op_dot", "EXPresolve_op_group")),
+EXTRA_MARKS = [("use_cycle", ("SCOPEfind_for_rename", "SCOPE_find_for_rename", "RENAMEresolve", "use_cycle", "imports:")), ("errbuf", ("ERROR_nexterror", "ERROR_vprintf", "ERRORvreport_with_symbol", "errbuf")), ("longexpr", ("exp_output", "format_for_std_stringout")), ("selectsearch", ("EXP_resolve_op_dot_fuzzy", "EXP_resolve_op_group_fuzzy", "EXPresolve_op_dot", "EXPresolve_op_group")),
                ("subtype_cycle", ("ENTITYcalculate_inheritance", "ENTITYget_named_attribute", "subtype_cycle")),
                ("wide", ("non_unique_types_string",))]
 
@@ -385,6 +389,7 @@ THEOREM_SITE = {
     "C06_inheritance_terminates": ["subtype_cycle"], "C06_named_attribute_terminates": ["subtype_cycle"],
     "C06_no_overflow_non_unique_types": ["wide"], "C06_string_buffer_terminated": ["longexpr"],
     "C06_error_heap_bounded": ["errbuf"], "C06_error_heap_index": ["errbuf"],
+    "C06_rename_search_terminates": ["use_cycle"],
     "C06_select_qualifier_terminates": ["selectsearch"], "C06_nesting_bounded": ["deep_left_sum", "stmt_if", "nested_aggr_type"],
     "C06_nesting_limits_present": ["deep_left_sum", "stmt_if", "nested_aggr_type"], "C06_no_overread_python_indent": ["stmt_if_else"],
 }
@@ -476,6 +481,18 @@ def run(ctx):
                     disagreements.append(("subtype_cycle", n, t, preds, "cyclic SUBTYPE OF accepted"))
             elif r["cls"] not in R.BAD:
                 disagreements.append(("subtype_cycle", n, t, preds, f"{r['cls']} rc={r['rc']}"))
+    # interface resolution: a missing item imported from a schema on a ring of whole-schema USE clauses
+    for n in (1, 2, 3, 7):
+        pred = model.one(f"renamesearch {n}")
+        res = run_.run([(f"boundary:use_cycle:{n}", G.use_cycle(n), "use_cycle", n)], timeout=tmo)
+        for t in R.TOOLS:
+            r = res[(f"boundary:use_cycle:{n}", t)]
+            ncomp += 1
+            if pred == "returns" and not (r["cls"] == "reject" and "non-existent object" in r["err"] + r["diag"]):
+                if r["cls"] not in R.BAD:
+                    disagreements.append(("use_cycle", n, t, pred, f"{r['cls']} rc={r['rc']}: {r['diag'][:100]}"))
+            elif pred == "never-returns" and r["cls"] not in R.BAD:
+                disagreements.append(("use_cycle", n, t, pred, f"{r['cls']} rc={r['rc']}"))
     # non_unique_types_string: which kinds are reached twice -> fits / overflows the malloc'ed block
     for omit in ((), (1,), (6,), (0,), (4, 5), tuple(range(8))):
         bits = "".join("0" if i in omit else "1" for i in range(8))
